@@ -380,4 +380,464 @@ Section Sim.
       + cbn [orb andb] in Hc. destruct look; [discriminate|]. cbn in Hc.
         exists false. split; [right; reflexivity|]. eapply lazy_reset_flag; eauto.
   Qed.
+
+  (* --- Loader level: one simulation lemma per operation --- *)
+  Lemma sim_iter l r : sim l r -> (rl_pending r = None \/ compat = true) ->
+    sim (ld_iter p restart l) (rl_iter p restart look r).
+  Proof.
+    destruct l as [oit fsd nsd], r as [cur pend rfsd]. unfold sim.
+    cbn [ld_it ld_iter_for_sd ld_next_sd rl_cur rl_pending rl_for_sd].
+    intros (Hf & Hp & Hc) Hside. subst rfsd. unfold ld_iter, rl_iter.
+    cbn [ld_it ld_iter_for_sd ld_next_sd rl_cur rl_pending rl_for_sd].
+    destruct oit as [it|], cur as [[[e k] req]|]; try contradiction; cbn [negb andb].
+    - destruct fsd.
+      + cbn [ld_it ld_iter_for_sd ld_next_sd rl_cur rl_pending rl_for_sd]. auto.
+      + destruct nsd as [s|], pend as [[e' k']|]; try contradiction;
+          cbn [ld_it ld_iter_for_sd ld_next_sd rl_cur rl_pending rl_for_sd];
+          (split; [reflexivity|]); (split; [exact I|]).
+        * destruct Hside as [Hs|Hs]; [discriminate|]. exact (resume_ok it s e' k' Hp Hs).
+        * exact (reset_none_ok it e k req Hc).
+    - destruct nsd as [s|], pend as [[e' k']|]; try contradiction;
+        cbn [ld_it ld_iter_for_sd ld_next_sd rl_cur rl_pending rl_for_sd];
+        (split; [reflexivity|]); (split; [exact I|]).
+      + destruct Hside as [Hs|Hs]; [discriminate|]. exact (resume_ok li_new s e' k' Hp Hs).
+      + exact reset_new_ok.
+  Qed.
+
+  Lemma sim_next l r : sim l r ->
+    fst (ld_next p l) = fst (rl_next p r) /\ sim (snd (ld_next p l)) (snd (rl_next p r)).
+  Proof.
+    destruct l as [oit fsd nsd], r as [cur pend rfsd]. unfold sim, ld_next, rl_next.
+    cbn [ld_it ld_iter_for_sd ld_next_sd rl_cur rl_pending rl_for_sd].
+    intros (Hf & Hp & Hc).
+    destruct oit as [it|], cur as [[[e k] req]|]; try contradiction.
+    - destruct (next_ok it e k req Hc) as [H1 H2]. destruct (li_next p it) as [o it']. cbn [fst snd] in *.
+      subst o. destruct (nth_error (sem p e) k) as [x|] eqn:E;
+        [rewrite (adv_some _ _ _ E) in H2|rewrite (adv_none _ _ E) in H2];
+        cbn [outc fst snd ld_it ld_iter_for_sd ld_next_sd rl_cur rl_pending rl_for_sd]; auto.
+    - cbn [fst snd ld_it ld_iter_for_sd ld_next_sd rl_cur rl_pending rl_for_sd]. auto.
+  Qed.
+
+  Lemma rl_iter_cur r : rl_cur (rl_iter p restart look r) <> None.
+  Proof.
+    destruct r as [cur pend rfsd]. unfold rl_iter. cbn [rl_cur rl_pending rl_for_sd].
+    destruct cur as [c|]; [destruct rfsd|]; cbn [rl_cur]; try discriminate;
+      destruct pend as [[e k]|]; cbn [rl_cur]; discriminate.
+  Qed.
+
+  Lemma sim_state l r : sim l r -> (rl_pending r = None \/ compat = true) ->
+    sd_ok (fst (ld_state_dict p restart l)) (fst (rl_state p restart look r)) /\
+    sim (snd (ld_state_dict p restart l)) (snd (rl_state p restart look r)).
+  Proof.
+    intros Hsim Hside.
+    (* the iterator exists after the lazy iter() *)
+    assert (H1 : exists it fsd nsd e k req pend,
+      (match ld_it l with
+       | None => {| ld_it := ld_it (ld_iter p restart l); ld_iter_for_sd := true;
+                    ld_next_sd := ld_next_sd (ld_iter p restart l) |}
+       | Some _ => l end) = {| ld_it := Some it; ld_iter_for_sd := fsd; ld_next_sd := nsd |} /\
+      (match rl_cur r with
+       | None => {| rl_cur := rl_cur (rl_iter p restart look r);
+                    rl_pending := rl_pending (rl_iter p restart look r); rl_for_sd := true |}
+       | Some _ => r end) = {| rl_cur := Some (e, k, req); rl_pending := pend; rl_for_sd := fsd |} /\
+      sim {| ld_it := Some it; ld_iter_for_sd := fsd; ld_next_sd := nsd |}
+          {| rl_cur := Some (e, k, req); rl_pending := pend; rl_for_sd := fsd |}).
+    { pose proof (sim_iter l r Hsim Hside) as Hi. pose proof (rl_iter_cur r) as Hn.
+      destruct l as [oit fsd nsd], r as [cur pend rfsd]. cbn [ld_it rl_cur].
+      destruct Hsim as (Hf & Hp & Hc). cbn [ld_it ld_iter_for_sd ld_next_sd rl_cur rl_pending rl_for_sd] in Hf, Hp, Hc.
+      destruct oit as [it|], cur as [[[e k] req]|]; try contradiction.
+      - subst rfsd. exists it, fsd, nsd, e, k, req, pend. split; [reflexivity|]. split; [reflexivity|].
+        unfold sim. cbn [ld_it ld_iter_for_sd ld_next_sd rl_cur rl_pending rl_for_sd]. auto.
+      - destruct (ld_iter p restart {| ld_it := None; ld_iter_for_sd := fsd; ld_next_sd := nsd |})
+          as [oit' fsd' nsd'].
+        destruct (rl_iter p restart look {| rl_cur := None; rl_pending := pend; rl_for_sd := rfsd |})
+          as [cur' pend' rfsd'].
+        destruct Hi as (Hf' & Hp' & Hc'). cbn [ld_it ld_iter_for_sd ld_next_sd rl_cur rl_pending rl_for_sd] in *.
+        destruct oit' as [it|], cur' as [[[e k] req]|]; try contradiction; try congruence.
+        exists it, true, nsd', e, k, req, pend'. split; [reflexivity|]. split; [reflexivity|].
+        unfold sim. cbn [ld_it ld_iter_for_sd ld_next_sd rl_cur rl_pending rl_for_sd]. auto. }
+    destruct H1 as (it & fsd & nsd & e & k & req & pend & E1 & E2 & (Hf & Hp & Hc)).
+    unfold ld_state_dict, rl_state. cbv zeta. rewrite E1, E2. unfold rl_pos.
+    cbn [ld_it ld_iter_for_sd ld_next_sd rl_cur rl_pending rl_for_sd] in *.
+    destruct (state_ok it e k req Hc) as [H3 H4].
+    destruct (li_get_state p it) as [s it']. cbn [fst snd] in *. split; [exact H3|].
+    unfold sim. cbn [ld_it ld_iter_for_sd ld_next_sd rl_cur rl_pending rl_for_sd]. auto.
+  Qed.
+
+  Lemma sim_load l r s ek : sim l r -> sd_ok s ek -> sim (ld_load l s) (rl_load r ek).
+  Proof.
+    intros (Hf & Hp & Hc) Hs. unfold sim, ld_load, rl_load.
+    cbn [ld_it ld_iter_for_sd ld_next_sd rl_cur rl_pending rl_for_sd]. auto.
+  Qed.
+
+  (* the pending slot of the reference stays empty as long as nothing is loaded *)
+  Lemma rl_iter_pending r : rl_pending r = None -> rl_pending (rl_iter p restart look r) = None.
+  Proof.
+    destruct r as [cur pend rfsd]. cbn [rl_pending]. intros ->. unfold rl_iter. cbn [rl_cur rl_pending rl_for_sd].
+    destruct cur; [destruct rfsd|]; reflexivity.
+  Qed.
+  Lemma rl_next_pending r : rl_pending (snd (rl_next p r)) = rl_pending r.
+  Proof.
+    destruct r as [cur pend rfsd]. unfold rl_next. cbn [rl_cur rl_pending rl_for_sd].
+    destruct cur as [[[e k] req]|]; [|reflexivity]. destruct (nth_error (sem p e) k); reflexivity.
+  Qed.
+  Lemma rl_state_pending r : rl_pending r = None -> rl_pending (snd (rl_state p restart look r)) = None.
+  Proof.
+    intros H. unfold rl_state. cbn [snd]. destruct (rl_cur r); [exact H|]. cbn [rl_pending].
+    apply rl_iter_pending. exact H.
+  Qed.
+
+  (* ------------------------------------------------------------------ *)
+  (* all finite histories, from any pair of related states *)
+  Definition side (ops : list hop) (r : rl) : Prop :=
+    compat = true \/ (no_load ops = true /\ rl_pending r = None).
+
+  Lemma side_step ops r : side ops r -> rl_pending r = None \/ compat = true.
+  Proof. intros [H|[_ H]]; auto. Qed.
+
+  Theorem sim_run : forall ops l r sm sr hi,
+    sim l r -> Forall2 sd_ok sm sr -> wf_from hi (length sm) ops = true -> side ops r ->
+    map strip_state (run_history p restart ops l sm) = ref_hist_from p restart look ops r sr /\
+    (sim (fst (run_final p restart ops l sm)) (fst (ref_final p restart look ops r sr)) /\
+     Forall2 sd_ok (snd (run_final p restart ops l sm)) (snd (ref_final p restart look ops r sr))).
+  Proof.
+    induction ops as [|op ops IH]; intros l r sm sr hi Hsim Hsv Hwf Hside.
+    - cbn. auto.
+    - destruct op; cbn [run_history ref_hist_from run_final ref_final map wf_from] in *.
+      + (* iter *)
+        destruct (IH (ld_iter p restart l) (rl_iter p restart look r) sm sr true) as [H1 H2]; auto.
+        * apply sim_iter; auto. apply (side_step _ _ Hside).
+        * destruct Hside as [H|[Ha Hb]]; [left; exact H|right]. cbn [no_load] in Ha. split; [exact Ha|].
+          apply rl_iter_pending; exact Hb.
+        * split; [|exact H2]. cbn [strip_state]. f_equal. exact H1.
+      + (* next *)
+        apply andb_prop in Hwf. destruct Hwf as [_ Hwf].
+        destruct (sim_next l r Hsim) as [Ho Hs].
+        destruct (IH (snd (ld_next p l)) (snd (rl_next p r)) sm sr hi) as [H1 H2]; auto.
+        * destruct Hside as [H|[Ha Hb]]; [left; exact H|right]. cbn [no_load] in Ha. split; [exact Ha|].
+          rewrite rl_next_pending; exact Hb.
+        * destruct (ld_next p l) as [o l'], (rl_next p r) as [o' r']. cbn [fst snd] in *. subst o'.
+          split; [|exact H2]. cbn [map]. rewrite strip_outcome. f_equal. exact H1.
+      + (* state_dict *)
+        destruct (sim_state l r Hsim (side_step _ _ Hside)) as [Ho Hs].
+        pose proof (rl_state_pending r) as Hpend.
+        destruct (ld_state_dict p restart l) as [s l'], (rl_state p restart look r) as [ek r'].
+        cbn [fst snd] in *.
+        destruct (IH l' r' (sm ++ [s]) (sr ++ [ek]) hi) as [H1 H2]; auto.
+        * apply Forall2_app; auto.
+        * rewrite app_length. cbn [length]. rewrite Nat.add_1_r. exact Hwf.
+        * destruct Hside as [H|[Ha Hb]]; [left; exact H|right]. cbn [no_load] in Ha. auto.
+        * split; [|exact H2]. cbn [map strip_state]. f_equal. exact H1.
+      + (* load_state_dict *)
+        apply andb_prop in Hwf. destruct Hwf as [Hi Hwf]. apply Nat.ltb_lt in Hi.
+        destruct Hside as [Hc|[Ha _]]; [|cbn [no_load] in Ha; discriminate].
+        destruct (IH (ld_load l (nth i sm SNone)) (rl_load r (nth i sr (0, 0))) sm sr hi) as [H1 H2]; auto.
+        * apply sim_load; auto. apply Forall2_nth'; auto.
+        * left; exact Hc.
+        * split; [|exact H2]. cbn [strip_state]. f_equal. exact H1.
+      + (* new Loader *)
+        destruct (IH ld_new rl_new sm sr false) as [H1 H2]; auto.
+        * apply sim_new.
+        * destruct Hside as [H|[Ha Hb]]; [left; exact H|right]. cbn [no_load] in Ha. auto.
+        * split; [|exact H2]. cbn [strip_state]. f_equal. exact H1.
+  Qed.
 End Sim.
+
+(* ------------------------------------------------------------------ *)
+(* the theorems                                                         *)
+Lemma wf_from_no_load ops : no_load ops = true -> forall hi n m, wf_from hi n ops = wf_from hi m ops.
+Proof.
+  induction ops as [|op ops IH]; intros H hi n m; [reflexivity|].
+  destruct op; cbn [no_load wf_from] in *; try discriminate; try (apply IH; exact H).
+  f_equal. apply IH; exact H.
+Qed.
+
+(* general form: any reference flag [look] compatible with the pipeline; no condition at all for
+   histories without load_state_dict *)
+Theorem loader_refines_gen : forall p restart look ops, pipe_ok p = true -> wf_ops ops = true ->
+  compat p restart look = true \/ no_load ops = true ->
+  map strip_state (run_history p restart ops ld_new []) = ref_hist_from p restart look ops rl_new [].
+Proof.
+  intros p restart look ops Hok Hwf Hs.
+  apply (sim_run p restart look Hok ops ld_new rl_new [] [] false).
+  - apply sim_new.
+  - constructor.
+  - exact Hwf.
+  - destruct Hs as [H|H]; [left; exact H|right; split; [exact H|reflexivity]].
+Qed.
+
+Theorem saved_positions_gen : forall p restart look ops, pipe_ok p = true -> wf_ops ops = true ->
+  compat p restart look = true \/ no_load ops = true ->
+  Forall2 (sd_ok p) (snd (run_final p restart ops ld_new [])) (snd (ref_final p restart look ops rl_new [])).
+Proof.
+  intros p restart look ops Hok Hwf Hs.
+  apply (sim_run p restart look Hok ops ld_new rl_new [] [] false).
+  - apply sim_new.
+  - constructor.
+  - exact Hwf.
+  - destruct Hs as [H|H]; [left; exact H|right; split; [exact H|reflexivity]].
+Qed.
+
+(* The reference's flag after a resume, LOOK := restart, is the model's when: the look-ahead runs
+   (restart = true), or the epoch number is irrelevant (no sampler), or restoring a state dict pulls
+   nothing from the sources (no Unbatcher / Prefetcher / ParallelMapper).  See the counterexamples
+   below for the remaining case. *)
+Definition faithful_ok (p : pipe) (restart : bool) : bool := restart || no_sampler p || lazy_resume p.
+
+Lemma faithful_compat p restart : faithful_ok p restart = true -> compat p restart restart = true.
+Proof.
+  unfold faithful_ok, compat. rewrite Bool.eqb_reflx.
+  destruct restart, (no_sampler p), (lazy_resume p); cbn; auto.
+Qed.
+
+(* (A1) *)
+Theorem loader_refines_ref : forall p restart ops, pipe_ok p = true -> wf_ops ops = true ->
+  faithful_ok p restart = true ->
+  map strip_state (run_history p restart ops ld_new []) = ref_history p restart ops.
+Proof.
+  intros p restart ops Hok Hwf Hf. apply loader_refines_gen; auto. left. apply faithful_compat; exact Hf.
+Qed.
+
+(* (A1), restart_on_stop_iteration = True: every pipeline *)
+Corollary loader_refines_ref_restart : forall p ops, pipe_ok p = true -> wf_ops ops = true ->
+  map strip_state (run_history p true ops ld_new []) = ref_history p true ops.
+Proof. intros. apply loader_refines_ref; auto. Qed.
+
+(* (A1), histories without load_state_dict: every pipeline, both values of restart *)
+Corollary loader_refines_ref_no_load : forall p restart ops, pipe_ok p = true -> wf_ops ops = true ->
+  no_load ops = true ->
+  map strip_state (run_history p restart ops ld_new []) = ref_history p restart ops.
+Proof. intros. apply loader_refines_gen; auto. Qed.
+
+(* (A2) *)
+Theorem loader_refines_ideal_ref : forall p restart ops, pipe_ok p = true -> wf_ops ops = true ->
+  no_sampler p = true ->
+  map strip_state (run_history p restart ops ld_new []) = ideal_ref_history p restart ops.
+Proof.
+  intros p restart ops Hok Hwf Hn. apply loader_refines_gen; auto. left. unfold compat. now rewrite Hn.
+Qed.
+
+(* (A1) is FALSE without [faithful_ok]: restart = false, a sampler below a node whose restore pulls
+   from its source (the pulled sampler counts as "started", so the next iter() without any next()
+   in between moves to the next epoch, while the reference stays in the resumed epoch) *)
+Definition cex_sampler : pipe := PSampler [map INat [1; 2; 3]; map INat [6; 5; 4]].
+Example loader_refines_ref_cex_unbatch :
+  map strip_state (run_history (PUnbatch (PBatch 2 false cex_sampler)) false
+                     [HState; HLoad 0; HIter; HIter; HNext] ld_new [])
+  <> ref_history (PUnbatch (PBatch 2 false cex_sampler)) false [HState; HLoad 0; HIter; HIter; HNext].
+Proof. vm_compute. discriminate. Qed.
+Example loader_refines_ref_cex_prefetch :
+  map strip_state (run_history (PPrefetch 0 cex_sampler) false
+                     [HIter; HNext; HState; HLoad 0; HIter; HIter; HNext] ld_new [])
+  <> ref_history (PPrefetch 0 cex_sampler) false [HIter; HNext; HState; HLoad 0; HIter; HIter; HNext].
+Proof. vm_compute. discriminate. Qed.
+(* ... and the IDEAL reference is not refined by pipelines with a sampler when restart = true *)
+Example loader_refines_ideal_ref_cex :
+  map strip_state (run_history cex_sampler true [HIter; HNext; HState; HLoad 0; HIter; HIter; HNext] ld_new [])
+  <> ideal_ref_history cex_sampler true [HIter; HNext; HState; HLoad 0; HIter; HIter; HNext].
+Proof. vm_compute. discriminate. Qed.
+
+(* ------------------------------------------------------------------ *)
+(* (A3) state_dict() on a loader without iterator consumes nothing, and the following iter()
+   does not start a second time *)
+Lemma ref_hist_no_load p restart look ops : no_load ops = true -> forall r s1 s2,
+  ref_hist_from p restart look ops r s1 = ref_hist_from p restart look ops r s2.
+Proof.
+  induction ops as [|op ops IH]; intros H r s1 s2; [reflexivity|].
+  destruct op; cbn [no_load ref_hist_from] in *; try discriminate.
+  - f_equal. apply IH; exact H.
+  - destruct (rl_next p r) as [o r']. f_equal. apply IH; exact H.
+  - destruct (rl_state p restart look r) as [ek r']. f_equal. apply IH; exact H.
+  - f_equal. apply IH; exact H.
+Qed.
+
+(* general form: whatever follows (iter / next / state_dict / new Loader) *)
+Theorem state_dict_before_iter_free_gen : forall p restart rest, pipe_ok p = true ->
+  no_load rest = true -> wf_from true 0 rest = true ->
+  map strip_state (run_history p restart (HState :: HIter :: rest) ld_new []) =
+  OS "state" :: map strip_state (run_history p restart (HIter :: rest) ld_new []).
+Proof.
+  intros p restart rest Hok Hnl Hwf.
+  rewrite (loader_refines_gen p restart restart (HState :: HIter :: rest) Hok); [| |right; exact Hnl].
+  - rewrite (loader_refines_gen p restart restart (HIter :: rest) Hok); [|exact Hwf|right; exact Hnl].
+    cbn. f_equal. f_equal. apply ref_hist_no_load. exact Hnl.
+  - unfold wf_ops. cbn [wf_from]. rewrite (wf_from_no_load rest Hnl true 1 0). exact Hwf.
+Qed.
+
+Lemma wf_nexts n m : wf_from true m (repeat HNext n) = true.
+Proof. induction n; cbn; auto. Qed.
+Lemma no_load_nexts n : no_load (repeat HNext n) = true.
+Proof. induction n; cbn; auto. Qed.
+
+Theorem state_dict_before_iter_free : forall p restart n, pipe_ok p = true ->
+  map strip_state (run_history p restart (HState :: HIter :: repeat HNext n) ld_new []) =
+  OS "state" :: map strip_state (run_history p restart (HIter :: repeat HNext n) ld_new []).
+Proof.
+  intros. apply state_dict_before_iter_free_gen; auto using wf_nexts, no_load_nexts.
+Qed.
+
+(* ... and explicitly: the n next() calls deliver the first epoch from its first item *)
+Fixpoint ref_nexts (l : list item) (n : nat) : list obs :=
+  match n with
+  | 0 => []
+  | S n' => match l with
+            | x :: l' => obs_of_outcome (OItem x) :: ref_nexts l' n'
+            | [] => OS "stop" :: ref_nexts [] n'
+            end
+  end.
+
+Lemma ref_hist_nexts p restart look : forall n e k req pend fsd saved,
+  ref_hist_from p restart look (repeat HNext n)
+    {| rl_cur := Some (e, k, req); rl_pending := pend; rl_for_sd := fsd |} saved
+  = ref_nexts (skipn k (sem p e)) n.
+Proof.
+  induction n as [|n IH]; intros e k req pend fsd saved; [reflexivity|].
+  cbn [repeat ref_hist_from]. unfold rl_next. cbn [rl_cur rl_pending rl_for_sd].
+  destruct (nth_error (sem p e) k) as [x|] eqn:E.
+  - rewrite (skipn_S_nth _ _ _ E). cbn [ref_nexts]. f_equal. apply IH.
+  - rewrite IH. rewrite (nth_error_None_skipn _ _ E). reflexivity.
+Qed.
+
+Theorem state_dict_before_iter_starts_at_0 : forall p restart n, pipe_ok p = true ->
+  map strip_state (run_history p restart (HState :: HIter :: repeat HNext n) ld_new []) =
+  OS "state" :: OS "iter" :: ref_nexts (sem p 0) n.
+Proof.
+  intros p restart n Hok.
+  rewrite (loader_refines_gen p restart restart _ Hok); [| |right; apply (no_load_nexts n)].
+  - cbn [ref_hist_from]. cbn [rl_state rl_iter rl_new rl_cur rl_pending rl_for_sd rl_pos fst snd].
+    f_equal. f_equal. apply (ref_hist_nexts p restart restart n 0 0).
+  - unfold wf_ops. cbn [wf_from]. apply wf_nexts.
+Qed.
+
+(* ------------------------------------------------------------------ *)
+(* (A4) every state dict saved anywhere in any history denotes the reference position (e, k) at
+   which it was taken (cursor BEFORE the look-ahead cache): loaded into a NEW loader it resumes
+   exactly there *)
+Lemma Forall2_nth_error {A B} (R : A -> B -> Prop) l1 l2 i a b :
+  Forall2 R l1 l2 -> nth_error l1 i = Some a -> nth_error l2 i = Some b -> R a b.
+Proof.
+  intros H. revert i. induction H; intros i Ha Hb; destruct i; cbn in *; try discriminate.
+  - congruence.
+  - eapply IHForall2; eauto.
+Qed.
+
+Theorem saved_states_positions : forall p restart ops, pipe_ok p = true -> wf_ops ops = true ->
+  faithful_ok p restart = true \/ no_load ops = true ->
+  Forall2 (sd_ok p) (saved_states p restart ops) (ref_positions p restart ops).
+Proof.
+  intros p restart ops Hok Hwf Hs. apply saved_positions_gen; auto.
+  destruct Hs as [H|H]; [left; apply faithful_compat; exact H|right; exact H].
+Qed.
+
+(* what [sd_ok] gives: the shape of the state dict, its counter, and the resume behaviour *)
+Lemma sd_ok_num_yielded p s e k : sd_ok p s (e, k) -> sd_field s "num_yielded" = SNat k.
+Proof. intros (c & -> & _). reflexivity. Qed.
+
+Lemma sd_ok_resume_mid p s e k restart' : pipe_ok p = true -> sd_ok p s (e, k) ->
+  k < length (sem p e) ->
+  ld_drain p (FUEL p) (ld_iter p restart' (ld_load ld_new s)) = (skipn k (sem p e), true).
+Proof.
+  intros Hok (c & -> & HS & _) Hk. cbn [fst snd] in *. unfold mk_sd.
+  pose proof (good_all p Hok) as G. destruct (HS RUninit) as (b' & H3).
+  destruct restart'.
+  - rewrite ld_iter_load_restart.
+    destruct (state_Rep p e k b' _ Hok H3) as [H4 _].
+    destruct (node_state p (node_reset p RUninit (Some c))) as [c' r1]. cbn [snd] in H4.
+    rewrite (node_next_Rep _ _ _ _ _ H4).
+    destruct (g_next p G _ _ _ _ H4) as (r2 & H5 & H6). rewrite H5.
+    destruct (nth_error (sem p e) k) as [x|] eqn:E; [|apply nth_error_None in E; lia].
+    cbn [outc]. rewrite (adv_some _ _ _ E) in H6.
+    unfold FUEL. cbn [ld_drain]. unfold ld_next at 1, li_next. cbn [ld_it li_cached_item li_root
+      li_cached_sd li_num_yielded ld_iter_for_sd ld_next_sd].
+    fold (Lshape r2 (S k) false).
+    pose proof (sem_fuel p e Hok).
+    rewrite (ld_drain_Rep p G e false (pipe_fuel p) (S k) true r2 (S k) H6 ltac:(lia)).
+    now rewrite (skipn_S_nth _ _ _ E).
+  - rewrite ld_iter_load_norestart. apply (ld_drain_FUEL p e k b' _ _ _ Hok H3).
+Qed.
+
+Lemma sd_ok_resume_end_restart p s e : pipe_ok p = true -> sd_ok p s (e, length (sem p e)) ->
+  ld_drain p (FUEL p) (ld_iter p true (ld_load ld_new s)) = (sem p (S e), true).
+Proof.
+  intros Hok (c & -> & HS & _). cbn [fst snd] in *. unfold mk_sd. set (k := length (sem p e)) in *.
+  pose proof (good_all p Hok) as G. destruct (HS RUninit) as (b' & H3).
+  rewrite ld_iter_load_restart.
+  destruct (state_Rep p e k b' _ Hok H3) as [H4 _].
+  destruct (node_state p (node_reset p RUninit (Some c))) as [c' r1]. cbn [snd] in H4.
+  rewrite (node_next_Rep _ _ _ _ _ H4).
+  destruct (g_next p G _ _ _ _ H4) as (r2 & H5 & H6). rewrite H5.
+  assert (E : nth_error (sem p e) k = None) by (apply nth_error_None; unfold k; lia).
+  rewrite E in *. cbn [outc]. rewrite (adv_none _ _ E) in H6.
+  apply (ld_drain_FUEL p (S e) 0 false _ _ _ Hok (Rep_next_epoch p e k r2 G H6)).
+Qed.
+
+Lemma sd_ok_resume_end_norestart p s e : pipe_ok p = true -> sd_ok p s (e, length (sem p e)) ->
+  ld_drain p (FUEL p) (ld_iter p false (ld_load ld_new s)) = ([], true).
+Proof.
+  intros Hok (c & -> & HS & _). cbn [fst snd] in *. unfold mk_sd.
+  destruct (HS RUninit) as (b' & H3).
+  rewrite ld_iter_load_norestart. rewrite (ld_drain_FUEL p e _ b' _ _ _ Hok H3).
+  now rewrite skipn_all.
+Qed.
+
+Theorem saved_state_is_position : forall p restart restart' ops i s e k,
+  pipe_ok p = true -> wf_ops ops = true -> faithful_ok p restart = true \/ no_load ops = true ->
+  nth_error (saved_states p restart ops) i = Some s ->
+  nth_error (ref_positions p restart ops) i = Some (e, k) ->
+  k <= length (sem p e) /\ sd_field s "num_yielded" = SNat k /\
+  (k < length (sem p e) ->
+   ld_drain p (FUEL p) (ld_iter p restart' (ld_load ld_new s)) = (skipn k (sem p e), true)) /\
+  (k = length (sem p e) ->
+   ld_drain p (FUEL p) (ld_iter p true (ld_load ld_new s)) = (sem p (S e), true) /\
+   ld_drain p (FUEL p) (ld_iter p false (ld_load ld_new s)) = ([], true)).
+Proof.
+  intros p restart restart' ops i s e k Hok Hwf Hs H1 H2.
+  pose proof (Forall2_nth_error _ _ _ _ _ _ (saved_states_positions p restart ops Hok Hwf Hs) H1 H2) as H.
+  split; [destruct H as (c & _ & _ & Hk); exact Hk|].
+  split; [eapply sd_ok_num_yielded; eauto|]. split.
+  - intros Hk. apply sd_ok_resume_mid; auto.
+  - intros ->. split; [apply (sd_ok_resume_end_restart p s e)|apply (sd_ok_resume_end_norestart p s e)]; auto.
+Qed.
+
+(* every HState of the history has a position: the two lists have the same length *)
+Corollary saved_states_length : forall p restart ops, pipe_ok p = true -> wf_ops ops = true ->
+  faithful_ok p restart = true \/ no_load ops = true ->
+  length (saved_states p restart ops) = length (ref_positions p restart ops).
+Proof.
+  intros p restart ops Hok Hwf Hs. pose proof (saved_states_positions p restart ops Hok Hwf Hs) as H.
+  induction H; cbn [length]; congruence.
+Qed.
+
+(* ------------------------------------------------------------------ *)
+(* Remarks.
+   - Reference operations: [rl_iter], [rl_next], [rl_state], [rl_load]; a new Loader is [rl_new].
+     The cursor of the reference is the position BEFORE the look-ahead cache: when
+     li_cached_item = Some x the root node is one item ahead ([it_ok]), li_cached_sd is the state
+     dict of the cursor position and li_num_yielded is cursor + 1.
+   - (A1) as first stated (for all p and restart, LOOK := restart) is false: see
+     [loader_refines_ref_cex_unbatch] / [loader_refines_ref_cex_prefetch].  With restart = false no
+     look-ahead runs, but restoring an Unbatcher / Prefetcher / ParallelMapper pulls from its source,
+     so a sampler below it has "started" and the next iter() WITHOUT any next() in between moves to
+     epoch e+1 (the reference: stays in e).  For Prefetcher / ParallelMapper whether the restore pulls
+     depends on steps_since_snapshot of the particular state dict, so no choice of LOOK that is a
+     function of (p, restart) is exact; the reference is kept and the hypothesis [faithful_ok] added.
+     [faithful_ok] holds whenever restart = true, or p has no sampler, or p has no
+     Unbatcher / Prefetcher / ParallelMapper; and no hypothesis is needed for histories without
+     load_state_dict ([loader_refines_ref_no_load]).
+   - [sim_run] uses of [wf_ops] only that every HLoad refers to an existing saved state; a next()
+     without iterator gives "err:no iterator" in both the model and the reference.
+   - [pipe_ok] (batch_size > 0) as in NodeResumeProofs. *)
+
+Print Assumptions loader_refines_gen.
+Print Assumptions loader_refines_ref.
+Print Assumptions loader_refines_ref_restart.
+Print Assumptions loader_refines_ref_no_load.
+Print Assumptions loader_refines_ideal_ref.
+Print Assumptions state_dict_before_iter_free_gen.
+Print Assumptions state_dict_before_iter_free.
+Print Assumptions state_dict_before_iter_starts_at_0.
+Print Assumptions saved_states_positions.
+Print Assumptions saved_state_is_position.
+Print Assumptions loader_refines_ref_cex_unbatch.
+Print Assumptions loader_refines_ref_cex_prefetch.
+Print Assumptions loader_refines_ideal_ref_cex.
